@@ -26,6 +26,7 @@ structure VH where
   number : Nat
   parent : Nat       -- parent hash
   ptd : Nat          -- total difficulty of the parent chain root
+  pend : Nat         -- end block number of the parent chain root
   epoch : Epoch
   compact : Nat
   pow : Bool         -- PoW engine verdict
@@ -297,7 +298,10 @@ def onLastState (s : St) (p : Nat) (h : VH) (now : Nat) (boundary : Nat) (sample
         if prevTd < newTd then
           match pst.proveState? with
           | some ps =>
-            if ← isParentOf ps.last h then
+            -- the chain root committed by the child has to be the proved parent's
+            let provedTd ← ps.last.td
+            let rootMatched := decide (h.ptd = provedTd) && decide (h.pend = ps.last.number)
+            if rootMatched && (← isParentOf ps.last h) then
               -- `update_prove_state_to_child`
               let child := newChild ps h s.lastNBlocks
               let s2 := if s1.stored.td < newTd then storeLastState s1 newTd h child.lastHeaders else s1
@@ -340,7 +344,7 @@ def checkMatched (lastN : Nat) (c : ReqContent) (headers : List VH) (last : VH) 
       if lr.number ≠ c.startNumber - 1 then return .error 452
   -- total difficulties of all headers are evaluated lazily by the implementation; the count
   -- below evaluates them front to back until the first one at or above the boundary
-  let (sampled, lastNCount) ← (if total - reorg > lastN then do
+  let shape ← (if total - reorg > lastN then do
       let rec countBefore : List VH → M Nat
         | [] => pure 0
         | h :: rest => do
@@ -354,6 +358,15 @@ def checkMatched (lastN : Nat) (c : ReqContent) (headers : List VH) (last : VH) 
         pure (sc, lnc)
       else pure (total - reorg - lastN, lastN)
     else pure (0, total - reorg) : M (Nat × Nat))
+  let (sampled, lastNCount) := shape
+  -- every block since the first one reaching the boundary has to be in the last-N section
+  if sampled ≠ 0 then
+    match headers[total - lastNCount]? with
+    | none => .error (.index 72)
+    | some f => if c.boundary ≤ f.ptd then return .error 400
+  -- the last-N section has to end at the parent of the last header
+  if 0 < lastNCount && (headers.getLast?.map (fun l => decide (l.number + 1 = last.number))) ≠ some true then
+    return .error 400
   if sampled = 0 then
     if 0 < lastNCount then
       match headers[reorg]?, headers.getLast? with
@@ -558,11 +571,14 @@ def onDisconnect (s : St) (p : Nat) : St := { s with peers := s.peers.filter (·
 /-- `get_peers_which_have_timeout` restricted to the prove state machine (request slots of
 blocks / transactions proofs are in the `Fetch` part of the state, see `PeerSm`) -/
 def timedOut (timeout now : Nat) (pst : PeerState) : Bool :=
-  match pst.whenSent? with
-  | some w => w + timeout < now
-  | none => match pst.lastState? with
-    | some ls => ls.updateTs + timeout < now
-    | none => false
+  -- `when_sent_request().and_then(over-age?).or_else(last state over-age?)`: a fresh request
+  -- does not protect a stale last state
+  (match pst.whenSent? with
+   | some w => decide (w + timeout < now)
+   | none => false) ||
+  (match pst.lastState? with
+   | some ls => decide (ls.updateTs + timeout < now)
+   | none => false)
 
 end Prove
 
@@ -642,11 +658,11 @@ def showPeer (e : Nat × PeerState) : String :=
   s!"[{e.1} {kindOf ps} ls={showOptVid (ps.lastState?.map (·.h.vid))} rq={rq} ps={showOptVid (ps.proveState?.map (·.last.vid))} lh={lhs}]"
 
 def showSt (s : St) : String :=
-  s!"stored td={s.stored.td} tip={s.stored.tip.hid} lastN={s.stored.lastN} rb={s.rollbacks} peers {" ".intercalate (s.peers.map showPeer)}"
+  s!"stored td={s.stored.td} tip={s.stored.tip.hid} lastN={s.stored.lastN} peers {" ".intercalate (s.peers.map showPeer)}"
 
 def parseVH : List Nat → Option (VH × List Nat)
-  | vid :: hid :: number :: parent :: ptd :: en :: ei :: el :: compact :: pow :: root :: recent :: rest =>
-    some (⟨vid, hid, number, parent, ptd, ⟨en, ei, el⟩, compact, pow = 1, root = 1, recent = 1⟩, rest)
+  | vid :: hid :: number :: parent :: ptd :: pend :: en :: ei :: el :: compact :: pow :: root :: recent :: rest =>
+    some (⟨vid, hid, number, parent, ptd, pend, ⟨en, ei, el⟩, compact, pow = 1, root = 1, recent = 1⟩, rest)
   | _ => none
 
 def parseVHs (fuel : Nat) (l : List Nat) : Option (List VH) :=
@@ -725,6 +741,6 @@ def stepLine (s : St) (line : String) : St × String :=
   | ["dump"] :: _ => (s, showSt s)
   | _ => (s, "bad-op")
 
-def initSt : St := ⟨100, 60000, 8000, 2, [], ⟨0, ⟨0, 0, 0, 0, 0, ⟨0, 0, 0⟩, 0, true, true, true⟩, []⟩, []⟩
+def initSt : St := ⟨100, 60000, 8000, 2, [], ⟨0, ⟨0, 0, 0, 0, 0, 0, ⟨0, 0, 0⟩, 0, true, true, true⟩, []⟩, []⟩
 
 end Prove
